@@ -248,7 +248,7 @@ parseinit(struct scope *s, struct type *t)
 				assert(p.cur->type->kind == TYPEARRAY);
 				focus(&p);
 			}
-			if (p.cur)
+			if (p.cur && !(p.sub->type->prop & PROPSCALAR))
 				initclear(&p, p.sub->offset, p.sub->offset + p.sub->type->size);
 			if (consume(TRBRACE)){
 				if (p.sub->type->incomplete)
